@@ -229,6 +229,9 @@ fn single<T: Euc>(t: &mut Tracer, st: &mut Stats, a: &T, rng: &mut StdRng) where
     }
 }
 
+/// operand generation never takes the process down (an overflow while merging generated terms just skips the operand)
+fn gen_g<T: Euc>(rng: &mut StdRng, bits: u64) -> Option<T> where for<'x> &'x T: EucRingOps<T> { let mut r2 = rng.clone(); let v = guarded(|| T::gen(&mut r2, bits)); *rng = r2; v.ok().flatten() }
+
 fn run_type<T: Euc>(a: &Args, salt: u64, t: &mut Tracer, st: &mut Stats, n: usize, big: u64, enumerated: &[Vec<i64>]) where for<'x> &'x T: EucRingOps<T> {
     let mut rng = a.rng(salt);
     // spec -> impl: operand pairs enumerated by TLC
@@ -244,12 +247,12 @@ fn run_type<T: Euc>(a: &Args, salt: u64, t: &mut Tracer, st: &mut Stats, n: usiz
     let (dbits, lbits) = T::bits(big);
     for i in 0..n {
         let bits = if i % 4 == 3 { lbits } else { dbits.min(if i % 3 == 0 { 12 } else { dbits }) };
-        let (Some(x), Some(y)) = (T::gen(&mut rng, bits), T::gen(&mut rng, bits / if i % 5 == 0 { 2 } else { 1 })) else { continue };
+        let (Some(x), Some(y)) = (gen_g::<T>(&mut rng, bits), gen_g::<T>(&mut rng, bits / if i % 5 == 0 { 2 } else { 1 })) else { continue };
         pair(t, st, &x, &y);
         single(t, st, &x, &mut rng);
         if !y.is_zero() {
             // planted quotient: a = q*y (+ small r) exercises the exact-division paths used by SNF / LLL / Ratio::reduce
-            if let Some(q) = T::gen(&mut rng, bits / 2) {
+            if let Some(q) = gen_g::<T>(&mut rng, bits / 2) {
                 if T::safe("mul", &q, &y) { if let Ok(p) = guarded(|| &q * &y) { if T::safe("div", &p, &y) { st.exact_div += 1; pair(t, st, &p, &y);
                     // half-way cases for nearest-integer division: 2a = (2q+1) y
                     if let Ok(h) = guarded(|| (&p + &p) + &y) { let two_y = &y + &y; if T::safe("div", &h, &two_y) { st.ties += 1; pair(t, st, &h, &two_y); } } } } }
